@@ -173,6 +173,21 @@ func (x *levelPlainW) SetLevel(l slog.Level)       { x.sw.setLevel(l) }
 
 // writer returns (creating on first use) the io.Writer for id with the given kind.
 func (w *W) writer(id int, kind string) io.Writer {
+	if kind == "fan" {
+		// one caller-owned fan-out list (slog.LWs) of two simulated destinations id*10+1 and id*10+2,
+		// with spare capacity, handed out as the same value every time it is asked for
+		if f, ok := w.ifaces[id]; ok {
+			return f
+		}
+		l := make(slog.LWs, 0, 4)
+		for k := 1; k <= 2; k++ {
+			if m, ok := w.writer(id*10+k, "logwriter").(slog.LogWriter); ok {
+				l = append(l, m)
+			}
+		}
+		w.ifaces[id] = l
+		return l
+	}
 	sw, ok := w.writers[id]
 	if !ok {
 		if kind == "" {
@@ -197,6 +212,14 @@ func (w *W) writer(id int, kind string) io.Writer {
 
 func makeIface(sw *simWriter) io.Writer {
 	switch sw.kind {
+	case "libfile":
+		// the library's own file destination (slog.NewFileWriter) on a regular file: no simulated events,
+		// the content is read after the episode (lf<id>.log in the episode's file directory)
+		dir := sw.w.sc.World.FileDir
+		if dir == "" {
+			dir = os.TempDir()
+		}
+		return slog.NewFileWriter(filepath.Join(dir, fmt.Sprintf("lf%d.log", sw.id)))
 	case "wrapped": // a plain writer given through the public NewLogWriter constructor
 		return slog.NewLogWriter(&plainW{sw})
 	case "logwriter", "file":
